@@ -26,7 +26,10 @@ func init() {
 			{"C08/bounded-copy", "copies into a fixed-size scratch buffer are bounded or their count is checked", c08BoundedCopy},
 			{"C08/reassembly", "the framer returns an error only for transport errors or an inconsistent header, not for 'still incomplete'", c08Reassembly},
 			{"C08/transport-contract", "both ReadPacket implementations return n == len(p) (or 0 with an error)", c08TransportContract},
-			{"C08/transport-source", "a packet read is one whole transport read: one ReadMessage / one Read of the buffered chunked body", func(c *Ctx) { transportRules(c, "C08/transport-source", false); c.Floor("C08/transport-source", 3, "two reads, constructor") }},
+			{"C08/transport-source", "a packet read is one whole transport read: one ReadMessage / one Read of the buffered chunked body", func(c *Ctx) {
+				transportRules(c, "C08/transport-source", false)
+				c.Floor("C08/transport-source", 3, "two reads, constructor")
+			}},
 		},
 	})
 }
@@ -142,6 +145,7 @@ func c08BoundedCopy(c *Ctx) {
 	rule := "C08/bounded-copy"
 	for _, name := range []string{"readMessage", "readHeader"} {
 		fn := c.Fn("cmd/rdpgw/protocol", name)
+		nFixed := 0
 		for _, ci := range callsIn(fn) {
 			call, ok := ci.(*ssa.Call)
 			if !ok {
@@ -156,7 +160,8 @@ func c08BoundedCopy(c *Ctx) {
 			if !fixed {
 				continue
 			}
-			key := name + " " + c.exprText(call.Pos())
+			nFixed++
+			key := fmt.Sprintf("%s copy into %d-byte scratch buffer#%d", name, dl, nFixed)
 			// bounded source, or the count compared with len(src)
 			if sl, ok := constSliceLen(strip(src)); ok && sl <= dl {
 				c.OK(rule, key, call.Pos(), "source has constant length %d <= %d", sl, dl)
